@@ -46,6 +46,12 @@ pub struct OfferPlan {
     pub backend: Backend,
     pub items: Vec<Ent>,
     pub replicas: Vec<Vec<OStep>>,
+    /// which document of the store receives the offers
+    #[serde(default)]
+    pub primary: u8,
+    /// entries of the OTHER documents in the same store; they must never be touched
+    #[serde(default)]
+    pub neighbours: Vec<Ent>,
 }
 
 impl Scenario for Offer {
@@ -99,7 +105,14 @@ impl Scenario for Offer {
             }
             replicas.push(steps);
         }
-        OfferPlan { seed: rng.next_u64(), backend, items, replicas }
+        let primary = if rng.chance(1, 2) { 0 } else { rng.below(4) as u8 };
+        let neighbours: Vec<Ent> = if rng.chance(1, 2) {
+            Vec::new()
+        } else {
+            let gn = GenCfg { docs: 4, authors: 4, max_key_len: 2, ts_values: 4, marker_pct: 20, contents: 3 };
+            (0..rng.urange(1, 6)).map(|_| gen_ent(rng, &gn)).filter(|e| e.d != primary).collect()
+        };
+        OfferPlan { seed: rng.next_u64(), backend, items, replicas, primary, neighbours }
     }
 
     fn exec(&self, plan: &OfferPlan, cx: &mut Cx) -> Res {
@@ -139,6 +152,11 @@ impl Scenario for Offer {
                 p.replicas[ri] = c;
                 out.push(p);
             }
+        }
+        if !plan.neighbours.is_empty() {
+            let mut p = plan.clone();
+            p.neighbours.clear();
+            out.push(p);
         }
         // simpler backend, simpler paths
         if plan.backend != Backend::Mem && !plan.replicas.iter().flatten().any(|s| matches!(s, OStep::Restart)) {
@@ -195,7 +213,19 @@ impl Offer {
         let mut finals: Vec<RefDoc> = Vec::new();
         for (ri, steps) in plan.replicas.iter().enumerate() {
             let mut sut = Sut::new(plan.backend)?;
-            ensure_doc(sut.store(), 0)?;
+            let pd = plan.primary % 4;
+            PRIMARY.with(|c| c.set(pd));
+            ensure_doc(sut.store(), pd)?;
+            // neighbour documents with smaller and larger ids live in the same store
+            let mut neighbour_models: std::collections::BTreeMap<u8, RefDoc> = Default::default();
+            for e in plan.neighbours.iter().filter(|e| e.d != pd) {
+                ensure_doc(sut.store(), e.d)?;
+                offer(sut.store(), e, Path::Remote).await?;
+                neighbour_models.entry(e.d).or_default().offer(e);
+            }
+            if !neighbour_models.is_empty() {
+                cx.probe("other_documents_in_the_same_store");
+            }
             let mut model = RefDoc::default();
             let mut offered: Vec<Ent> = Vec::new();
             for step in steps {
@@ -203,7 +233,7 @@ impl Offer {
                     OStep::Offer { i, path } => {
                         let Some(e) = plan.items.get(*i) else { continue };
                         let mut e = e.clone();
-                        e.d = 0;
+                        e.d = pd;
                         let got = offer(sut.store(), &e, *path).await?;
                         disarm_age();
                         let want = model.offer(&e);
@@ -231,6 +261,7 @@ impl Offer {
                     }
                     OStep::Check => {
                         self.check(sut.store(), &model, ri, cx, "mid-run")?;
+                        check_neighbours(sut.store(), &neighbour_models, ri)?;
                     }
                     OStep::Restart => {
                         if sut.can_restart() {
@@ -269,13 +300,14 @@ impl Offer {
             }
             disarm_age();
             let d = self.check(sut.store(), &model, ri, cx, "final")?;
+            check_neighbours(sut.store(), &neighbour_models, ri)?;
             if self.mode == Mode::State {
                 let join = RefDoc::join(offered.iter());
                 if model != join {
                     return Err(harness("model self-test: fold(offer) != join"));
                 }
                 // all entries were offered to every replica, so all must agree with join(items)
-                let all: Vec<Ent> = plan.items.iter().cloned().map(|mut e| { e.d = 0; e }).collect();
+                let all: Vec<Ent> = plan.items.iter().cloned().map(|mut e| { e.d = pd; e }).collect();
                 let offered_all = all.iter().all(|e| offered.contains(e));
                 if offered_all {
                     finals.push(d);
@@ -296,7 +328,7 @@ impl Offer {
     }
 
     fn check(&self, store: &mut iroh_docs::store::Store, model: &RefDoc, ri: usize, cx: &mut Cx, when: &str) -> Res<RefDoc> {
-        let d = dump(store, 0).map_err(harness)?;
+        let d = dump(store, PRIMARY.with(|c| c.get())).map_err(harness)?;
         cx.ev("check", format!("r{ri} {}", d.doc.short()));
         match self.mode {
             Mode::State => {
@@ -305,7 +337,7 @@ impl Offer {
             Mode::Heads => {
                 // heads must equal the greatest timestamp per author among the entries *held*
                 let want = d.doc.heads();
-                let got = heads(store, 0).map_err(harness)?;
+                let got = heads(store, PRIMARY.with(|c| c.get())).map_err(harness)?;
                 let got_ts: BTreeMap<u8, u64> = got.iter().map(|(a, (ts, _))| (*a, *ts)).collect();
                 if got_ts != want {
                     let kind = if got_ts.keys().ne(want.keys()) {
@@ -324,7 +356,7 @@ impl Offer {
 
     fn check_news(&self, store: &mut iroh_docs::store::Store, h: &[(u8, u64)], ri: usize, cx: &mut Cx) -> Res {
         let w = world();
-        let d = dump(store, 0).map_err(harness)?;
+        let d = dump(store, PRIMARY.with(|c| c.get())).map_err(harness)?;
         let ours = d.doc.heads();
         let mut report = AuthorHeads::default();
         let mut merged: BTreeMap<u8, u64> = BTreeMap::new();
@@ -335,7 +367,7 @@ impl Offer {
             *t = (*t).max(*ts);
         }
         let want = merged.iter().filter(|(a, ts)| ours.get(a).map(|o| **ts > *o).unwrap_or(true)).count() as u64;
-        let got = store.has_news_for_us(w.doc_id(0), &report).map_err(|e| harness(format!("has_news_for_us: {e:#}")))?;
+        let got = store.has_news_for_us(w.doc_id(PRIMARY.with(|c| c.get())), &report).map_err(|e| harness(format!("has_news_for_us: {e:#}")))?;
         let got = got.map(|n| n.get()).unwrap_or(0);
         cx.ev("news", format!("r{ri} {:?} -> {got}", h));
         if got != want {
@@ -348,6 +380,15 @@ impl Offer {
     }
 }
 
+fn check_neighbours(store: &mut iroh_docs::store::Store, models: &std::collections::BTreeMap<u8, RefDoc>, ri: usize) -> Res {
+    for (d, m) in models {
+        let got = dump(store, *d).map_err(harness)?;
+        compare("foreign-untouched", &format!("replica {ri}: another document (d{d}) in the same store"), &got, m)?;
+    }
+    Ok(())
+}
+
 thread_local! {
+    static PRIMARY: std::cell::Cell<u8> = const { std::cell::Cell::new(0) };
     static AGE_FIRED: std::cell::RefCell<Option<std::rc::Rc<std::cell::Cell<bool>>>> = const { std::cell::RefCell::new(None) };
 }
